@@ -25,7 +25,7 @@ RULE += ('; also: namespaces given as OrderedDict / UserDict / read-only mapping
 ASSUMPTIONS = ['attribute assignment on AttributesFrozendict does not change the mapping and is not judged',
                'specs whose non-callable default violates the port itself are rejected at definition time and skipped',
                'reference model written from the statement and documentation']
-REQUIRED = ['aliased_namespace_values', 'own_created_state_class', 'factory_defaults_compared', 'constructed', 'accepted', 'rejected', 'defaults_populated', 'callable_defaults', 'populate_defaults_false', 'dynamic_values', 'immutability_probes',
+REQUIRED = ['declared_by_dotted_paths', 'aliased_namespace_values', 'own_created_state_class', 'factory_defaults_compared', 'constructed', 'accepted', 'rejected', 'defaults_populated', 'callable_defaults', 'populate_defaults_false', 'dynamic_values', 'immutability_probes',
             'caller_dict_checks', 'metamorphic/idempotent', 'metamorphic/remove_required', 'metamorphic/wrong_type', 'nested_ns_levels', 'exposed_specs', 'legacy_validators', 'aliased_namespace_values', 'mapping_leaf_values']
 BOUNDS = {'quick': '250 specs (depth<=2) x 40 inputs', 'thorough': '4000 specs (depth<=3) x 60 inputs'}
 UN = '<absent>'
@@ -118,8 +118,14 @@ def nsv_some(values, port):
     return 'nothing given' if not values else None
 
 
-VALIDATORS = {'nsv_some': nsv_some, 'v_not1': v_not1, 'nsv_no_x': nsv_no_x, 'v_short': v_short, 'v_not1_old': v_not1_old, 'nsv_no_x_old': nsv_no_x_old, 'v_not1_raises': v_not1_raises, 'v_not1_empty': v_not1_empty}
-MODEL_VALIDATORS = {'nsv_some': nsv_some, 'v_not1': v_not1, 'nsv_no_x': nsv_no_x, 'v_short': v_short, 'v_not1_old': v_not1, 'nsv_no_x_old': nsv_no_x, 'v_not1_raises': v_not1, 'v_not1_empty': v_not1}
+def nsv_some_raises(values, port):
+    """The same rule, refusing by raising."""
+    if not values:
+        raise ValueError('nothing given')
+
+
+VALIDATORS = {'nsv_some_raises': nsv_some_raises, 'nsv_some': nsv_some, 'v_not1': v_not1, 'nsv_no_x': nsv_no_x, 'v_short': v_short, 'v_not1_old': v_not1_old, 'nsv_no_x_old': nsv_no_x_old, 'v_not1_raises': v_not1_raises, 'v_not1_empty': v_not1_empty}
+MODEL_VALIDATORS = {'nsv_some_raises': nsv_some, 'nsv_some': nsv_some, 'v_not1': v_not1, 'nsv_no_x': nsv_no_x, 'v_short': v_short, 'v_not1_old': v_not1, 'nsv_no_x_old': nsv_no_x, 'v_not1_raises': v_not1, 'v_not1_empty': v_not1}
 def ns_empty():
     return {}
 
@@ -335,7 +341,20 @@ def _sibling_specs():
     yield ['ns', {}, {'a': ['ns', {}, {'x': copy.deepcopy(relax), 'm': copy.deepcopy(final)}]}]
 
 
+def _implicit_specs():
+    """Namespaces that are never declared themselves, only through the dotted paths of their ports: optional and required ports in either order."""
+    opt, req, dflt = ['port', {'required': False}], ['port', {}], ['port', {'default': ['val', 5], 'valid_type': 'int'}]
+    yield ['ns', {}, {'x': ['ns', {}, {'a': opt, 'n': req}]}]
+    yield ['ns', {}, {'x': ['ns', {}, {'n': req, 'a': opt}]}]
+    yield ['ns', {}, {'x': ['ns', {}, {'a': dflt, 'n': req, 'm': ['ns', {}, {'ab': opt, 'a': req}]}], 'm': req}]
+    yield ['ns', {}, {'m': ['ns', {}, {'x': ['ns', {}, {'a': opt, 'ab': dflt, 'n': req}]}]}]
+
+
 def gen_cases(tier, seed):
+    for k, spec in enumerate(_implicit_specs()):
+        for inputs in (None, {}, {'x': {}}, {'x': {'n': 1}}, {'x': {'n': 1, 'm': {}}, 'm': 2}, {'x': {'n': 1, 'm': {'a': 1}}, 'm': 2}, {'m': {}}, {'m': {'x': {}}}, {'m': {'x': {'n': 3}}}):
+            yield {'spec': spec, 'inputs': inputs, 'si': 300000 + 3 * k, 'dotted': True}
+            yield {'spec': spec, 'inputs': inputs, 'si': 300000 + 3 * k}
     for k, spec in enumerate(_sibling_specs()):
         top = 'a' if 'a' in spec[2] and spec[2]['a'][0] == 'ns' else None
         for shared in ({}, {'n': 3}, {'a': '@A'}):
@@ -365,6 +384,8 @@ def gen_cases(tier, seed):
             yield {'spec': spec, 'inputs': inputs, 'si': s}
             if s % 4 == 0 and i % 2 == 0:
                 yield {'spec': spec, 'inputs': inputs, 'si': s, 'exposed': True}
+            if s % 4 == 1 and i % 3 == 0 and "'late'" not in repr(spec):
+                yield {'spec': spec, 'inputs': inputs, 'si': s, 'dotted': True}
 
 
 # ---------------------------------------------------------------------------------------
@@ -428,7 +449,41 @@ class OwnCreatedState(plumpy.Process):
         return states
 
 
-def spec_class(spec, si, exposed=False):
+def _declare_dotted(pspec, children, prefix=''):
+    """Declare the ports by their dotted paths (``spec.input('opts.verbose', ...)``): a namespace that has no settings of its own is never
+    declared, it comes into being with the first port below it -- and is the same namespace whichever port that happens to be."""
+    for name, d in children.items():
+        path = prefix + name
+        if d[0] == 'port':
+            pspec.input(path, **_port_kwargs(d[1]))
+        else:
+            if d[1] or not d[2]:
+                pspec.input_namespace(path, **_port_kwargs(d[1]))
+            _declare_dotted(pspec, d[2], path + '.')
+
+
+def spec_class(spec, si, exposed=False, dotted=False):
+    if dotted:
+        key = 'dotted:' + repr(spec)
+        if key in _CLS:
+            return _CLS[key]
+        top_attrs_, children_ = spec[1], spec[2]
+
+        def define_dotted(cls, pspec):
+            super(cls, cls).define(pspec)
+            for k, v in _port_kwargs(top_attrs_).items():
+                setattr(pspec.inputs, k, v)
+            _declare_dotted(pspec, children_)
+
+        cls = type('Dot_%d' % len(_CLS), (plumpy.Process,), {})
+        cls.define = classmethod(define_dotted)
+        generated.register(cls)
+        try:
+            cls.spec()
+        except ValueError as exc:
+            cls = ('spec-error', str(exc))
+        _CLS[key] = cls
+        return cls
     if exposed:
         # the same ports arrive in the spec of another class through expose_inputs() (no namespace, nothing excluded): what is
         # accepted and how it is parsed follows the declaration, whichever way it reached the spec
@@ -639,8 +694,8 @@ def _unaliased(value):
 def run_case(case):
     V = judges.V
     spec, inputs_desc = case['spec'], case['inputs']
-    cls = spec_class(spec, case['si'], exposed=bool(case.get('exposed')))
-    obs = {'aliased_namespace_values': int('@SAME' in json.dumps(inputs_desc)), 'exposed_specs': int(bool(case.get('exposed'))), 'legacy_validators': int('_old' in json.dumps(spec)), 'constructed': 0, 'accepted': 0, 'rejected': 0, 'defaults_populated': 0, 'callable_defaults': 0, 'populate_defaults_false': 0,
+    cls = spec_class(spec, case['si'], exposed=bool(case.get('exposed')), dotted=bool(case.get('dotted')))
+    obs = {'declared_by_dotted_paths': int(bool(case.get('dotted'))), 'aliased_namespace_values': int('@SAME' in json.dumps(inputs_desc)), 'exposed_specs': int(bool(case.get('exposed'))), 'legacy_validators': int('_old' in json.dumps(spec)), 'constructed': 0, 'accepted': 0, 'rejected': 0, 'defaults_populated': 0, 'callable_defaults': 0, 'populate_defaults_false': 0,
            'dynamic_values': 0, 'immutability_probes': 0, 'caller_dict_checks': 0, 'metamorphic': {}, 'nested_ns_levels': 0, 'spec_errors': 0}
     if isinstance(cls, tuple):
         obs['spec_errors'] = 1
